@@ -148,6 +148,8 @@ def worker_main(argv):
         from . import gen
         if gen.LONG[0]:
             ctx.stratum('sentence of 120..220 tokens', gen.LONG[0])
+        for k_, v_ in gen.SPICE_USED.items():
+            ctx.stratum(k_, v_)
         if gen.LOOKALIKE[0]:
             ctx.stratum('token that resembles punctuation but is none',
                         gen.LOOKALIKE[0])
